@@ -10,7 +10,7 @@ use crate::Blowfish;
 use byteorder::BE;
 use refmodels::blowfish as r;
 
-//@ harness name=bc_init_state prop=C14 tier=quick bits=0 est=45 need=4 desc="D: Blowfish::bc_init_state() is the pi-digit state (P_INIT, S_INIT) the reference algorithm starts from (no symbolic input: constant tables compared entry by entry)"
+//@ harness name=bc_init_state prop=C14 tier=quick bits=0 est=50 need=4 desc="D: Blowfish::bc_init_state() is the pi-digit state (P_INIT, S_INIT) the reference algorithm starts from (no symbolic input: constant tables compared entry by entry)"
 verif_harness! {
     name: bc_init_state,
     bytes: 1,
@@ -353,13 +353,13 @@ macro_rules! df_fixed {
         }
     };
 }
-//@ harness name=bc_salted_df_s12_k72 prop=C14,C20 tier=quick bits=1248 stub=1 est=120 cbmc_args=--max-field-sensitivity-array-size;1100 desc="data flow of salted_expand_key == eksblowfish ExpandKey for a 12-byte salt (does not divide 16: the salt position carries over between the P phase and the S phase) and a 72-byte key (bcrypt's maximum, above Blowfish's 56): arbitrary P array, all salt and key bytes; encrypt replaced on both sides by a recording stand-in (result of call k a constant of k, argument logged): the arguments of all 521 calls and the final state (1042 words) are equal"
+//@ harness name=bc_salted_df_s12_k72 prop=C14,C20 tier=thorough bits=1248 stub=1 est=120 cbmc_args=--max-field-sensitivity-array-size;1100 desc="data flow of salted_expand_key == eksblowfish ExpandKey for a 12-byte salt (does not divide 16: the salt position carries over between the P phase and the S phase) and a 72-byte key (bcrypt's maximum, above Blowfish's 56): arbitrary P array, all salt and key bytes; encrypt replaced on both sides by a recording stand-in (result of call k a constant of k, argument logged): the arguments of all 521 calls and the final state (1042 words) are equal"
 df_fixed!(bc_salted_df_s12_k72, SALTED_VS_EKS, 12, 72);
-//@ harness name=bc_salted_df_s16_k8 prop=C14,C20 tier=quick bits=768 stub=1 est=120 cbmc_args=--max-field-sensitivity-array-size;1100 desc="data flow of salted_expand_key == eksblowfish ExpandKey for bcrypt's 16-byte salt and an 8-byte key; as bc_salted_df_s12_k72"
+//@ harness name=bc_salted_df_s16_k8 prop=C14,C20 tier=thorough bits=768 stub=1 est=120 cbmc_args=--max-field-sensitivity-array-size;1100 desc="data flow of salted_expand_key == eksblowfish ExpandKey for bcrypt's 16-byte salt and an 8-byte key; as bc_salted_df_s12_k72"
 df_fixed!(bc_salted_df_s16_k8, SALTED_VS_EKS, 16, 8);
-//@ harness name=bc_salted_df_s5_k57 prop=C14,C20 tier=quick bits=1072 stub=1 est=120 cbmc_args=--max-field-sensitivity-array-size;1100 desc="data flow of salted_expand_key == eksblowfish ExpandKey for a 5-byte salt and a 57-byte key (odd lengths: every word straddles the wrap-around); as bc_salted_df_s12_k72"
+//@ harness name=bc_salted_df_s5_k57 prop=C14,C20 tier=thorough bits=1072 stub=1 est=120 cbmc_args=--max-field-sensitivity-array-size;1100 desc="data flow of salted_expand_key == eksblowfish ExpandKey for a 5-byte salt and a 57-byte key (odd lengths: every word straddles the wrap-around); as bc_salted_df_s12_k72"
 df_fixed!(bc_salted_df_s5_k57, SALTED_VS_EKS, 5, 57);
-//@ harness name=bc_zero_salt_df_s16_k72 prop=C14 tier=quick bits=1152 stub=1 est=120 cbmc_args=--max-field-sensitivity-array-size;1100 desc="data flow: salted_expand_key(16 zero bytes, 72-byte key) == Schneier's unsalted expansion (what bc_expand_key and ordinary keying compute); stand-in for encrypt as above"
+//@ harness name=bc_zero_salt_df_s16_k72 prop=C14 tier=thorough bits=1152 stub=1 est=120 cbmc_args=--max-field-sensitivity-array-size;1100 desc="data flow: salted_expand_key(16 zero bytes, 72-byte key) == Schneier's unsalted expansion (what bc_expand_key and ordinary keying compute); stand-in for encrypt as above"
 df_fixed!(bc_zero_salt_df_s16_k72, ZERO_SALT_VS_PLAIN, 16, 72);
-//@ harness name=bc_expand_key_df_k72 prop=C14,C20 tier=quick bits=1152 stub=1 est=120 cbmc_args=--max-field-sensitivity-array-size;1100 desc="data flow: bc_expand_key(72-byte key) == Schneier's key expansion with the key cycled, arbitrary P array; stand-in for encrypt as above"
+//@ harness name=bc_expand_key_df_k72 prop=C14,C20 tier=quick bits=1152 stub=1 cbmc_args=--max-field-sensitivity-array-size;1100 est=120 need=6 desc="data flow: bc_expand_key(72-byte key) == Schneier's key expansion with the key cycled, arbitrary P array; stand-in for encrypt as above"
 df_fixed!(bc_expand_key_df_k72, PLAIN_VS_PLAIN, 16, 72);
